@@ -12,8 +12,11 @@ package harness
 import (
 	"context"
 	"encoding/json"
+	"errors"
 	"fmt"
+	"io"
 	"math/rand"
+	"net"
 	"os"
 	"runtime"
 	"sort"
@@ -123,6 +126,12 @@ type srvScenario struct {
 	// opens (fast handlers)
 	AutoRelease bool
 	MaxSteps    int
+	// faults on the server's end of the channel (C08)
+	RecvFailAt   int    // the n-th Recv (1-based) fails; 0 = never
+	RecvFailKind string // eof | eofdata | closing | other
+	SendFailAt   int    // the n-th Send fails
+	NoUnblock    bool   // Close does not unblock a pending Recv (like channel.Direct)
+	Restart      bool   // after WaitStatus, start the same server again and probe it
 }
 
 type gate struct {
@@ -159,6 +168,7 @@ type srvRun struct {
 	Running  int
 	MaxRun   int
 	sendTags [][]string // per sent record: tags of its members (for "read" events)
+	readRecs []string   // text of each record the reader received, in order
 	heldOpen bool       // phase 2: gates of held handlers (tags starting with "H") may be released
 }
 
@@ -306,11 +316,40 @@ func runServerScenario(t *testing.T, sc *srvScenario, pickFn func(n int) int, sk
 	if maxSteps == 0 {
 		maxSteps = 4000
 	}
+	writeProgress(sc)
 	defer runtime.GOMAXPROCS(runtime.GOMAXPROCS(1)) // one goroutine at a time: schedules replay exactly
 	synctest.Test(t, func(t *testing.T) {
 		jrpc2.VerifHook = r.sched.hook
 		defer func() { jrpc2.VerifHook = nil }()
 		r.cli, r.sch = newVPair()
+		if sc.NoUnblock {
+			r.sch.closeIn = false
+		}
+		if sc.RecvFailAt > 0 {
+			at, kind := int32(sc.RecvFailAt), sc.RecvFailKind
+			r.sch.st.recvErr = func(n int32) ([]byte, error, bool) {
+				switch {
+				case n == at && kind == "eofdata":
+					return []byte(reqNote("n9001", "ok")), io.EOF, true
+				case n >= at && kind == "eof" || n > at && kind == "eofdata":
+					return nil, io.EOF, true
+				case n >= at && kind == "closing":
+					return nil, net.ErrClosed, true
+				case n >= at:
+					return nil, errors.New("boom"), true
+				}
+				return nil, nil, false
+			}
+		}
+		if sc.SendFailAt > 0 {
+			at := int32(sc.SendFailAt)
+			r.sch.st.sendErr = func(n int32) error {
+				if n == at {
+					return errors.New("send failed")
+				}
+				return nil
+			}
+		}
 		r.srv = jrpc2.NewServer(srvMux{r}, &jrpc2.ServerOptions{Concurrency: sc.Concurrency, AllowPush: sc.AllowPush}).Start(r.sch)
 		nextOp := 0
 		lastSeq := 0
@@ -378,13 +417,19 @@ func runServerScenario(t *testing.T, sc *srvScenario, pickFn func(n int) int, sk
 				p := ps[k]
 				switch p.site {
 				case "srv.read.recv":
-					if p.b == nil { // a record was received (no error)
-						tags := []string{}
-						if reads < len(r.sendTags) {
-							tags = r.sendTags[reads]
-						}
-						r.logf("read %d %s", reads, strings.Join(tags, ","))
+					r.sch.st.mu.Lock()
+					var rec []byte
+					if reads < len(r.sch.st.recvLog) {
+						rec = r.sch.st.recvLog[reads]
+					}
+					r.sch.st.mu.Unlock()
+					if p.b == nil || rec != nil { // a record was received (possibly together with EOF)
+						r.logf("read %d %s", reads, strings.Join(memberTags(string(rec)), ","))
+						r.readRecs = append(r.readRecs, string(rec))
 						reads++
+						if p.b != nil {
+							r.logf("readfinal %v", p.b)
+						}
 					} else {
 						r.logf("readerr %v", p.b)
 					}
@@ -529,6 +574,26 @@ func runServerScenario(t *testing.T, sc *srvScenario, pickFn func(n int) int, sk
 		}
 		synctest.Wait()
 		r.drainOut()
+		if sc.Restart && r.Status != nil {
+			c2, s2 := newVPair()
+			r.srv.Start(s2)
+			c2.Send([]byte(reqCall(777, "c777", "ok")))
+			for i := 0; i < 50; i++ {
+				synctest.Wait()
+				if gs := r.openGates(); len(gs) > 0 {
+					r.releaseGate(gs[0])
+					continue
+				}
+				break
+			}
+			for _, b := range c2.in.drain() {
+				r.logf("restart-out %s", b)
+			}
+			c2.Close()
+			st2 := r.srv.WaitStatus()
+			r.logf("restart-status %s closes=%d", statusText(st2), s2.st.closes.Load())
+			synctest.Wait()
+		}
 	})
 	return r
 }
@@ -561,6 +626,25 @@ func installStuckHandler(t *testing.T, res *Result, what string) {
 // rngPick returns a pickFn drawing from rng.
 func rngPick(rng *rand.Rand) func(int) int { return func(n int) int { return rng.Intn(n) } }
 
+// progressSeed is the seed of the picker of the run in progress; it is written to the progress
+// file so that a run that kills the process (a panic in a library goroutine) can be replayed.
+var progressSeed int64
+
+// seededPick draws a fresh picker seed from rng and remembers it for the progress file.
+func seededPick(rng *rand.Rand) func(int) int {
+	progressSeed = rng.Int63()
+	return rngPick(rand.New(rand.NewSource(progressSeed)))
+}
+
+func writeProgress(sc *srvScenario) {
+	out := os.Getenv("VERIF_OUT")
+	if out == "" {
+		return
+	}
+	b, _ := json.Marshal(map[string]any{"scenario": sc, "pickseed": progressSeed})
+	os.WriteFile(out+".progress", b, 0o644)
+}
+
 // replayPick replays a recorded choice list (then falls back to 0).
 func replayPick(choices []int) func(int) int {
 	i := 0
@@ -586,3 +670,13 @@ func reqNote(tag, outcome string) string {
 	return fmt.Sprintf(`{"jsonrpc":"2.0","method":"m","params":[%q,%q]}`, tag, outcome)
 }
 func reqBatch(members ...string) string { return "[" + strings.Join(members, ",") + "]" }
+
+// readText returns the text of the k-th record the reader received.
+func (r *srvRun) readText(k string) string {
+	var i int
+	fmt.Sscan(k, &i)
+	if i >= 0 && i < len(r.readRecs) {
+		return r.readRecs[i]
+	}
+	return ""
+}
